@@ -88,8 +88,21 @@ def analyse(trace):
 
 
 def search(binary):
+    """A finding is reported only if the same history shows the same kind of finding a second time: the histories are
+    single-threaded and deterministic, so a real defect reproduces, while an artefact of tracing under load (a check of
+    benign refactor B3_2 once came back with a finding that four repetitions did not show) does not."""
+    first = _search_once(binary, HISTORIES)
+    if not first.get("found") or first.get("scenario") != "durability":
+        return first
+    again = _search_once(binary, [h for h in HISTORIES if "max_file_size=%d, merge selects %s: %s" % h in first.get("history", "")] or HISTORIES)
+    if again.get("found") and again.get("kind") == first.get("kind"):
+        return first
+    return {"found": False, "searched": "a finding of the first pass (%s) did not reproduce on the same history and is discarded" % first.get("kind")}
+
+
+def _search_once(binary, histories):
     n = 0
-    for max_size, mode, ops in HISTORIES:
+    for max_size, mode, ops in histories:
         n += 1
         with tempfile.NamedTemporaryFile(prefix="verif-strace-", suffix=".log", delete=False) as tf:
             log = tf.name
